@@ -38,16 +38,12 @@ def check(prog, run):
         run.looked_at(f)
         for n in own_nodes(f.node):
             if isinstance(n, ast.Call) and isinstance(n.func, ast.Name) and n.func.id == other.name:
-                # which case?
-                case = None
-                cur = n
-                while getattr(cur, "_parent", None) is not None:
-                    par = cur._parent
-                    if isinstance(par, ast.If) and cur in par.body:
-                        names = [nm for names, _ in shapes.class_tests(par.test, f.params[0]) for nm in names]
-                        case = names[0] if names else None
-                        break
-                    cur = par
+                # which case?  the kinds of old type for which this call is evaluated (path enumeration)
+                from .. import dispatch
+                hier = dispatch.Hierarchy(prog)
+                reached = [k for k in ("NamedType", "ListType", "NonNullType")
+                           if any(c is n for _k, _st, env in dispatch.executions(hier, f, f.params[0], k) for c in env.get(boolx.CALLS, ()))]
+                case = reached[0] if len(reached) == 1 else ("|".join(reached) or None)
                 run.report(r, "%s:%s:crosses-polarity(%s)" % (D, f.name, case), f.where(n),
                            "%s calls %s in its %s case: the element types of an %s list are compared with the %s rule, so e.g. "
                            "`[Int!]` -> `[Int]` on a field is reported as safe although clients may now receive null items"
